@@ -6,6 +6,7 @@ file stops compiling and the check reports a broken obligation that names the le
 -/
 import Pandora.Gen.RespGuard
 import Pandora.Model.C19
+import Pandora.Proofs.C19Vars
 
 namespace Pandora.Bridge.C19
 open Pandora.Model.C10 Pandora.Model.C19
@@ -256,5 +257,184 @@ theorem grpcToHttp_eq (c : Nat) : Gen.RespGuard.grpcToHttp c = grpcToHttp c := b
   unfold Gen.RespGuard.grpcToHttp grpcToHttp
   repeat' split
   all_goals first | rfl | omega
+
+/-! ### round 3: the code that reads response-derived variables (lib/mp, the scenario preprocessors, template functions) -/
+
+/-- `calcIndex` of the CURRENT source (regenerated statement by statement into the Checked monad) is the model's
+`calcIndex` on the classification of the index text, for every text, every result of `strconv.Atoi`, every length and
+everything the iterator may hand out. Moving the emptiness guard behind the keyword branches, dropping it, another
+comparison or another modulo breaks this lemma; renaming locals does not. -/
+theorem calcIndex_eq (indexStr : String) (atoi : Option Int) (length : Int) (nextV randRaw : Nat) :
+    Gen.RespGuard.calcIndex indexStr atoi length nextV randRaw =
+      calcIndex (indexKindOf indexStr atoi) length nextV randRaw := by
+  unfold Gen.RespGuard.calcIndex indexKindOf
+  by_cases h1 : indexStr = "next" <;> by_cases h2 : indexStr = "rand" <;> by_cases h3 : indexStr = "last" <;>
+    cases atoi <;> simp_all [calcIndex, goRem, intn, Checked.bind] <;>
+    (repeat' split) <;> simp_all <;> first | omega | (split <;> simp_all <;> omega) | skip
+
+/-- hence the index the CURRENT source computes never panics and lies inside the slice -/
+theorem calcIndex_in_bounds (indexStr : String) (atoi : Option Int) (length : Int) (nextV randRaw : Nat) :
+    ∃ r, Gen.RespGuard.calcIndex indexStr atoi length nextV randRaw = .ok r ∧ ∀ i, r = some i → 0 ≤ i ∧ i < length := by
+  rw [calcIndex_eq]
+  exact Proofs.C19.calcIndex_ok _ _ _ _
+
+/-- the bound of `randString` in the CURRENT source is the model's, and `make([]rune, n)` accepts every length below it -/
+theorem maxRandStringLength_eq : Gen.RespGuard.maxRandStringLength = maxRandStringLength := rfl
+
+theorem maxRandStringLength_ok : Gen.RespGuard.maxRandStringLength ≤ maxRuneSliceLen := by decide
+
+/-- `extractFromSlice`: the slice types are checked first (any other value is an error: model `.list false`, scalars,
+maps), `valueLen` is the length of THE SAME value, `calcIndex` is called with it, its error is returned, and every
+`v[index]` uses the index it returned (model `extractFromSlice`: `goIndex xs i` with `i` from `calcIndex k xs.length`) -/
+theorem mpExtractFromSlice_eq : Gen.RespGuard.mpExtractFromSlice = [
+    "v0 := []reflect.Type{reflect.TypeOf([]map[string]string{}), reflect.TypeOf([]map[string]any{}), reflect.TypeOf([]any{}), reflect.TypeOf([]string{}), reflect.TypeOf([]int{}), reflect.TypeOf([]int64{}), reflect.TypeOf([]float64{})}",
+    "var v1 int",
+    "var v2 bool",
+    "for _, v3 := range v0 { if reflect.TypeOf(v4) == v3 { v1 = reflect.ValueOf(v4).Len() v2 = true break } }",
+    "if !v2 { return nil, fmt.Errorf(\"…\", v4, v4) }",
+    "v5, v6 := calcIndex(v7, v8, v1, v9)",
+    "if v6 != nil { return nil, fmt.Errorf(\"…\", v4, v6) }",
+    "switch v := v4.(type) { case []map[string]string: v10 := make(map[string]any, len(v11[v5])) for v12, v13 := range v11[v5] { v10[v12] = v13 } return v10, nil case []map[string]any: return v14[v5], nil case []any: return v15[v5], nil case []string: return v16[v5], nil case []int: return v17[v5], nil case []int64: return v18[v5], nil case []float64: return v19[v5], nil }",
+    "return nil, fmt.Errorf(\"…\", v4, v4)"] := rfl
+
+/-- `GetMapValue` (model `getMapValue`): a missing key is an error, an indexed segment goes through
+`extractFromSlice`, both type assertions are comma-ok, a value that is not a map ends the path (error unless last) -/
+theorem mpGetMapValue_eq : Gen.RespGuard.mpGetMapValue = [
+    "if v0 == nil { return nil, nil }",
+    "var v1 strings.Builder",
+    "v2 := strings.Split(strings.TrimPrefix(v3, \".\"), \".\")",
+    "for v4, v5 := range v2 { v5 = strings.TrimSpace(v5) v1.WriteByte('.') v1.WriteString(v5) if strings.Contains(v5, \"[\") && strings.HasSuffix(v5, \"]\") { v6 := strings.Index(v5, \"[\") v7 := strings.ToLower(strings.TrimSpace(v5[v6+1 : len(v5)-1])) v5 = v5[:v6] v8, v9 := v0[v5] if !v9 { return nil, &ErrSegmentNotFound{path: v3, segment: v5} } v10, v11 := extractFromSlice(v8, v7, v1.String(), v12) if v11 != nil { return nil, fmt.Errorf(\"…\", v5, v3, v11) } v0, v9 = v10.(map[string]any) if !v9 { if v4 != len(v2)-1 { return nil, fmt.Errorf(\"…\", v5, v3) } return v10, nil } } else { v13, v14 := v0[v5] if !v14 { return nil, &ErrSegmentNotFound{path: v3, segment: v5} } v0, v14 = v13.(map[string]any) if !v14 { if v4 != len(v2)-1 { return nil, fmt.Errorf(\"…\", v5, v3) } return v13, nil } } }",
+    "return v0, nil"] := rfl
+
+/-- `(*NextIterator).Rand` is `rand.Intn(length)` of a private generator (model `intn`: panics for `length ≤ 0`) -/
+theorem mpIterRand_eq : Gen.RespGuard.mpIterRand = [
+    "v0.mx.Lock()",
+    "defer v0.mx.Unlock()",
+    "return v0.rnd.Intn(v1)"] := rfl
+
+/-- `(*NextIterator).Next`: 0 for a new segment, then a counter (`atomic.Uint64`; model: `nextV : Nat`) -/
+theorem mpIterNext_eq : Gen.RespGuard.mpIterNext = [
+    "v0.mx.Lock()",
+    "defer v0.mx.Unlock()",
+    "v1, v2 := v0.gs[v3]",
+    "if !v2 { v0.gs[v3] = &atomic.Uint64{} return 0 }",
+    "v4 := v1.Add(1)",
+    "return int(v4)"] := rfl
+
+/-- `(*Preprocessor).Process` (http): every mapping is a template function call or a path; the first error ends it
+(model `preprocess`) -/
+theorem preprocessHTTP_eq : Gen.RespGuard.preprocessHTTP = [
+    "if v0 == nil { return nil, nil }",
+    "if v1 == nil { return nil, errors.New(\"…\") }",
+    "v2 := make(map[string]any, len(v0.Mapping))",
+    "var ( v3 any v4 error )",
+    "for v5, v6 := range v0.Mapping { v7, v8 := templater.ParseFunc(v6) if v7 != nil { v3, v4 = templater.ExecTemplateFuncWithVariables(v7, v8, v1, v0.iterator) } else { v3, v4 = mp.GetMapValue(v1, v6, v0.iterator) } if v4 != nil { return nil, fmt.Errorf(\"…\", v5, v4) } v2[v5] = v3 }",
+    "return v2, nil"] := rfl
+
+/-- `(*PreparePreprocessor).Process` (grpc): the same loop -/
+theorem preprocessGRPC_eq : Gen.RespGuard.preprocessGRPC = [
+    "if v0 == nil { return nil, errors.New(\"…\") }",
+    "v1 := make(map[string]any, len(v2.Mapping))",
+    "var ( v3 any v4 error )",
+    "for v5, v6 := range v2.Mapping { v7, v8 := templater.ParseFunc(v6) if v7 != nil { v3, v4 = templater.ExecTemplateFuncWithVariables(v7, v8, v0, v2.iterator) } else { v3, v4 = mp.GetMapValue(v0, v6, v2.iterator) } if v4 != nil { return nil, fmt.Errorf(\"…\", v5, v4) } v1[v5] = v3 }",
+    "return v1, nil"] := rfl
+
+/-- `ExecTemplateFuncWithVariables`: every argument is looked up as a path, an ERROR falls back to the text
+(model `resolveArgs`), then the function is called (`callTplFn`) -/
+theorem execTemplateFunc_eq : Gen.RespGuard.execTemplateFunc = [
+    "v0 := make([]any, len(v1))",
+    "for v2 := range v1 { v3, v4 := mp.GetMapValue(v5, v1[v2], v6) if v4 == nil { v0[v2] = v3 } else { v0[v2] = v1[v2] } }",
+    "switch exec := v7.(type) { case func() (string, error): return v8() case func(v9 ...any) (string, error): return v10(v0...) }",
+    "return \"\", ErrUnsupportedFunctionType"] := rfl
+
+/-- `RandString(args...)` (model `callRandString`) -/
+theorem tplRandStringArgs_eq : Gen.RespGuard.tplRandStringArgs = [
+    "switch len(v0) { case 0: return randString(0, \"\") case 1: return randString(v0[0], \"\") case 2: return randString(v0[0], str.FormatString(v0[1])) default: return \"\", fmt.Errorf(\"…\", len(v0)) }"] := rfl
+
+/-- `randString`: unparsable ⇒ error, 0 ⇒ 1, negative ⇒ error, ABOVE `maxRandStringLength` ⇒ error, and only then
+`str.RandStringRunes` (model `randString (some maxRandStringLength)`) -/
+theorem tplRandString_eq : Gen.RespGuard.tplRandString = [
+    "v0, v1 := numbers.ParseInt(v2)",
+    "if v1 != nil { return \"\", v1 }",
+    "if v0 == 0 { v0 = 1 }",
+    "if v0 < 0 { return \"\", fmt.Errorf(\"…\", v0) }",
+    "if v0 > maxRandStringLength { return \"\", fmt.Errorf(\"…\", maxRandStringLength, v0) }",
+    "return str.RandStringRunes(v0, v3), nil"] := rfl
+
+/-- `RandInt(args...)` (model `callRandInt`) -/
+theorem tplRandIntArgs_eq : Gen.RespGuard.tplRandIntArgs = [
+    "switch len(v0) { case 0: return randInt(0, 0) case 1: v1, v2 := numbers.ParseInt(v0[0]) if v2 != nil { return \"\", v2 } return randInt(v1, 0) case 2: v3, v4 := numbers.ParseInt(v0[0]) if v4 != nil { return \"\", v4 } v5, v4 := numbers.ParseInt(v0[1]) if v4 != nil { return \"\", v4 } return randInt(v3, v5) default: return \"\", fmt.Errorf(\"…\", len(v0)) }"] := rfl
+
+/-- `randInt(f, t)`: swap, the two special cases, the guard `t-f <= 0` in front of `rand.Int63n(t - f)`
+(model `randIntRange`) -/
+theorem tplRandIntRange_eq : Gen.RespGuard.tplRandIntRange = [
+    "if v0 < v1 { v0, v1 = v1, v0 }",
+    "if v1 == 0 && v0 == 0 { v0 = defaultMaxRandValue }",
+    "if v0 == v1 { v0 = v1 + defaultMaxRandValue }",
+    "if v0-v1 <= 0 { return \"\", fmt.Errorf(\"…\", v1, v0) }",
+    "v2 := rand.Int63n(v0 - v1)",
+    "v2 += v1",
+    "return strconv.FormatInt(v2, 10), nil"] := rfl
+
+/-- `str.RandStringRunes`: `make([]rune, n)` with the caller's `n` (model `goMakeRunes`), letters never empty -/
+theorem strRandStringRunes_eq : Gen.RespGuard.strRandStringRunes = [
+    "if len(v0) == 0 { v0 = letters }",
+    "if v1 < 0 { v1 = 0 }",
+    "var v2 = []rune(v0)",
+    "v3 := make([]rune, v1)",
+    "randSourceMx.Lock()",
+    "for v4 := range v3 { v3[v4] = v2[randSource.Intn(len(v2))] }",
+    "randSourceMx.Unlock()",
+    "return string(v3)"] := rfl
+
+/-- no explicit panic in lib/mp, the preprocessors, the template functions, lib/str/string.go -/
+theorem varsExplicitPanics_eq : Gen.RespGuard.varsExplicitPanics = [] := rfl
+
+/-- no type assertion without comma-ok there -/
+theorem varsUncheckedAssertions_eq : Gen.RespGuard.varsUncheckedAssertions = [] := rfl
+
+/-- index / slice expressions there. On response-derived data: the `v[index]` of `extractFromSlice` (bounds:
+`calcIndex_in_bounds`). The others index the argument lists of template functions after `switch len(args)` / within
+`range args`, configuration text (`segment[...]`: the first `[` stands before the final `]`; `ParseStringFunc`, `parseStr`)
+and `b[i]` / `letterRunes[Intn(len)]` within `range b` / a non-empty alphabet. -/
+theorem varsIndexings_eq : Gen.RespGuard.varsIndexings = [
+    "components/providers/scenario/templater/exec.go|ExecTemplateFuncWithVariables|a[i]",
+    "components/providers/scenario/templater/exec.go|ExecTemplateFuncWithVariables|a[i]",
+    "components/providers/scenario/templater/exec.go|ExecTemplateFuncWithVariables|args[i]",
+    "components/providers/scenario/templater/exec.go|ExecTemplateFuncWithVariables|args[i]",
+    "components/providers/scenario/templater/exec.go|ExecTemplateFunc|a[i]",
+    "components/providers/scenario/templater/exec.go|ExecTemplateFunc|args[i]",
+    "components/providers/scenario/templater/func.go|RandInt|args[0]",
+    "components/providers/scenario/templater/func.go|RandInt|args[0]",
+    "components/providers/scenario/templater/func.go|RandInt|args[1]",
+    "components/providers/scenario/templater/func.go|RandString|args[0]",
+    "components/providers/scenario/templater/func.go|RandString|args[0]",
+    "components/providers/scenario/templater/func.go|RandString|args[1]",
+    "components/providers/scenario/templater/func.go|parseStr|args[0]",
+    "components/providers/scenario/templater/func.go|parseStr|args[0]",
+    "components/providers/scenario/templater/func.go|parseStr|args[1:]",
+    "components/providers/scenario/templater/func.go|parseStr|args[i]",
+    "components/providers/scenario/templater/func.go|parseStr|args[i]",
+    "lib/mp/map.go|GetMapValue|segment[:openBraceIdx]",
+    "lib/mp/map.go|GetMapValue|segment[openBraceIdx+1 : len(segment)-1]",
+    "lib/mp/map.go|extractFromSlice|v[index]",
+    "lib/mp/map.go|extractFromSlice|v[index]",
+    "lib/mp/map.go|extractFromSlice|v[index]",
+    "lib/mp/map.go|extractFromSlice|v[index]",
+    "lib/mp/map.go|extractFromSlice|v[index]",
+    "lib/mp/map.go|extractFromSlice|v[index]",
+    "lib/mp/map.go|extractFromSlice|v[index]",
+    "lib/mp/map.go|extractFromSlice|v[index]",
+    "lib/str/string.go|ParseStringFunc|arg[:closeIdx]",
+    "lib/str/string.go|ParseStringFunc|args[i]",
+    "lib/str/string.go|ParseStringFunc|args[i]",
+    "lib/str/string.go|ParseStringFunc|shoot[:openIdx]",
+    "lib/str/string.go|ParseStringFunc|shoot[openIdx+1:]",
+    "lib/str/string.go|RandStringRunes|b[i]",
+    "lib/str/string.go|RandStringRunes|letterRunes[randSource.Intn(len(letterRunes))]"] := rfl
+
+/-- `n.gs` is created by `NewNextIterator` -/
+theorem varsMapWritesWithoutMake_eq : Gen.RespGuard.varsMapWritesWithoutMake = [
+    "lib/mp/iterator.go|NextIterator.Next|n.gs[segment]"] := rfl
 
 end Pandora.Bridge.C19
